@@ -286,7 +286,7 @@ def client_thread(ctx, rig, nid, tid, nthreads, ops, seed, mode, errors):
             index, sub = (gen.TYPE_INDEX_BASE + dt, 0) if style != "dotted" else (0x2100, member_sub(dt))
             case = {"mode": mode, "thread": tid, "node": nid, "type": R.NAMES[dt], "key": key, "value": v, "op": counter}
             ctx.case((mode, R.NAMES[dt], style, vclass(dt, v), nthreads), nontrivial=True)
-            t0 = time.time()
+            t0 = case["t0"] = time.time()
             try:
                 remote.sdo[key].raw = v
                 stored = local.data_store.get(index, {}).get(sub)
@@ -307,6 +307,23 @@ def client_thread(ctx, rig, nid, tid, nthreads, ops, seed, mode, errors):
                     ctx.violation(f"{mech}:{side}:threaded", f"thread {tid} (node {nid}) wrote {v!r}, {side} read-back gave {got!r} (owner of that value: thread {own})", case)
     except BaseException as exc:  # noqa: BLE001 - harness failure must surface
         errors.append(({"thread": tid, "fatal": True}, exc, 0))
+
+
+def triage_timeout(rig, case, duration):
+    """('lost', how) when the delivery log shows the slave's answer to the call's last request reaching the master's
+    network at least 5 s before the client gave up (RESPONSE_TIMEOUT is 20 s); ('harness', why) otherwise."""
+    nid = case["node"]
+    t_end = case.get("t0", 0) + duration
+    reqs = [f for f in rig.bus.log if f.src == "master" and f.can_id == 0x600 + nid and case.get("t0", 0) - 0.001 <= f.wall <= t_end]
+    if not reqs:
+        return "harness", "no request of this call found in the bus log"
+    last = reqs[-1]
+    for ts, dst, f, wall in list(rig.bus.delivered):
+        if dst == "master" and f.can_id == 0x580 + nid and f.ts > last.ts:
+            if wall <= t_end - 5.0:
+                return "lost", f"{wall - last.wall:.2f} s after the request"
+            return "harness", f"the answer reached the master only {wall - last.wall:.1f} s after the request"
+    return "harness", "the answer never reached the master's network (bus / slave threads starved)"
 
 
 def run_threaded(ctx, desc):
@@ -352,12 +369,21 @@ def run_threaded(ctx, desc):
     ctx.add("noise_frames", noise_count[0])
     if hung:
         ctx.inconc(f"client threads still running after the watchdog: {hung}", {"mode": mode, "threads": nthreads})
+    tainted = set()         # nodes on which a time-out was put down to starved harness threads: a late answer may follow
     for case, exc, dt_ in errors:
         if case.get("fatal"):
             raise exc
         if isinstance(exc, SdoCommunicationError) and "No SDO response" in str(exc) and mode != "fragile":
-            # decided by the delivery log: was the response handed to the client's network before it gave up?
-            ctx.violation(f"response-lost:{mode}", f"client timed out after {dt_:.1f}s although nothing was dropped by the bus: {exc}", case)
+            # decided by the delivery log, not by the clock: had the answer to the last request of this call been handed
+            # to the client's network (Network.notify returned) in good time before the client gave up?
+            verdict, detail = triage_timeout(rig, case, dt_) if mode == "threaded" else ("lost", "")
+            if verdict == "lost":
+                ctx.violation(f"response-lost:{mode}", f"client timed out after {dt_:.1f}s although the answer had been delivered to its network {detail}: {exc}", case)
+            else:
+                tainted.add(case["node"])
+                ctx.inconc(f"client time-out after {dt_:.1f}s put down to the harness (loaded machine): {detail}", case)
+        elif case.get("node") in tainted and isinstance(exc, SdoCommunicationError):
+            ctx.inconc(f"follow-on of an inconclusive time-out on node {case['node']}: {exc}", case)
         else:
             ctx.violation(f"roundtrip-raised:{type(exc).__name__}:{mode}", f"{type(exc).__name__}: {exc}", case)
     # interleaving signature: order in which the nodes' SDO frames appeared on the bus
